@@ -2,6 +2,7 @@ package rules
 
 import (
 	"fmt"
+	"os"
 	"go/constant"
 	"go/token"
 	"go/types"
@@ -75,6 +76,16 @@ func c06P1(l *core.Ledger, ep *entryPoint) {
 		// the request literal
 		reqLit, ok := structLiteral(e.Call.Args[1])
 		if !ok || reqLit["msg"] == nil {
+			if os.Getenv("VERIF_DEBUG") != "" {
+				fmt.Printf("DEBUG P1 %s arg=%T %v ok=%v\n", k, e.Call.Args[1], e.Call.Args[1], ok)
+				if ld, isLd := e.Call.Args[1].(*ssa.UnOp); isLd {
+					if al, isAl := ld.X.(*ssa.Alloc); isAl {
+						for _, ref := range *al.Referrers() {
+							fmt.Printf("DEBUG   ref %T %v\n", ref, ref)
+						}
+					}
+				}
+			}
 			l.Bad("C06-P1", k, e.Pos(), "the request handed to the queue is not a literal built here")
 			continue
 		}
